@@ -185,6 +185,10 @@ Kruskal(g, start) == LET C == WccClass(g, start)
 (* triangles and local clustering coefficients                               *)
 \* topology.rs: direction and multiplicity ignored, each triangle once
 Triangles(g) == Cardinality({T \in SUBSET g.V : Cardinality(T) = 3 /\ \A a, b \in T : a # b => Adj(g, a, b)})
+\* leapfrog.rs count_triangles_leapfrog: "Triangle: (a)->(b)->(c)->(a).  For each edge (a,b), count |N_out(b) /\ N_in(a)|":
+\* every relationship a->b contributes the number of nodes c with b->c and c->a (a directed 3-cycle is seen from each
+\* of its relationships; N_out / N_in are sets of nodes)
+LeapTriangles(g) == SumF([i \in DOMAIN g.E |-> Cardinality({c \in g.V : Arc(g, g.E[i].d, c) /\ Arc(g, c, g.E[i].s)})], DOMAIN g.E)
 \* lcc.rs, undirected: N(v) = distinct neighbours in either direction except v;
 \* LCC(v) = 2 * |{{a,b} subset of N(v) : a adjacent b}| / (d (d-1)), 0 when d < 2.   Returns <<numerator, denominator>>.
 Nbrs(g, v) == {u \in g.V \ {v} : Adj(g, u, v)}
